@@ -23,86 +23,8 @@ import tempfile
 V = "/verif"
 
 
-class Renamer(ast.NodeTransformer):
-    """Rename function-local variables x -> x_rn throughout the function (including nested scopes)."""
-
-    def __init__(self):
-        self.maps = []
-
-    def _locals(self, fn):
-        params = set()
-        a = fn.args
-        for p in a.posonlyargs + a.args + a.kwonlyargs:
-            params.add(p.arg)
-        if a.vararg:
-            params.add(a.vararg.arg)
-        if a.kwarg:
-            params.add(a.kwarg.arg)
-        bound, declared = set(), set()
-        for n in ast.walk(fn):
-            if n is fn:
-                continue
-            if isinstance(n, ast.Name) and isinstance(n.ctx, (ast.Store, ast.Del)):
-                bound.add(n.id)
-            elif isinstance(n, (ast.Global, ast.Nonlocal)):
-                declared.update(n.names)
-            elif isinstance(n, ast.ExceptHandler) and n.name:
-                pass  # keep handler names (str field)
-            elif isinstance(n, (ast.FunctionDef, ast.AsyncFunctionDef)):
-                # nested function parameters shadow
-                for p in n.args.posonlyargs + n.args.args + n.args.kwonlyargs:
-                    declared.add(p.arg)
-            elif isinstance(n, ast.Lambda):
-                for p in n.args.posonlyargs + n.args.args + n.args.kwonlyargs:
-                    declared.add(p.arg)
-        return {b for b in bound - params - declared if not b.startswith("__")}
-
-    def visit_FunctionDef(self, node):
-        if not self.maps:  # outermost function only decides; nested scopes inherit
-            self.maps.append({x: x + "_rn" for x in self._locals(node)})
-            self.generic_visit(node)
-            self.maps.pop()
-        else:
-            self.generic_visit(node)
-        return node
-
-    def visit_Name(self, node):
-        if self.maps and node.id in self.maps[-1]:
-            node.id = self.maps[-1][node.id]
-        return node
-
-
-class IfSwap(ast.NodeTransformer):
-    def visit_If(self, node):
-        self.generic_visit(node)
-        if node.orelse and not (len(node.orelse) == 1 and isinstance(node.orelse[0], ast.If)) and not (
-            isinstance(node.test, ast.UnaryOp) and isinstance(node.test.op, ast.Not)
-        ):
-            node.test = ast.UnaryOp(op=ast.Not(), operand=node.test)
-            node.body, node.orelse = node.orelse, node.body
-        return node
-
-    def visit_IfExp(self, node):
-        self.generic_visit(node)
-        if not (isinstance(node.test, ast.UnaryOp) and isinstance(node.test.op, ast.Not)):
-            node.test = ast.UnaryOp(op=ast.Not(), operand=node.test)
-            node.body, node.orelse = node.orelse, node.body
-        return node
-
-
-def transform(src_root, kinds):
-    for dp, dn, fns in os.walk(os.path.join(src_root, "src", "y0")):
-        for fn in fns:
-            if not fn.endswith(".py"):
-                continue
-            p = os.path.join(dp, fn)
-            tree = ast.parse(open(p, encoding="utf-8").read())
-            if "rename" in kinds:
-                tree = Renamer().visit(tree)
-            if "ifswap" in kinds:
-                tree = IfSwap().visit(tree)
-            ast.fix_missing_locations(tree)
-            open(p, "w", encoding="utf-8").write(ast.unparse(tree) + "\n")
+sys.path.insert(0, V)
+from yv.selftest import transform  # noqa: E402
 
 
 def compiles(src_root):
